@@ -401,7 +401,14 @@ theorem cutConn_inv {s s' : State} (i : Inv s) (c : Nat) (hs : cutConn s c = som
     refine Inv.of_mono i (LogMono.refl _) (EpMono.refl _) rfl rfl ?_ ?_ ?_
     · intro x hx; exact hx
     · intro x hx; exact Or.inl hx
-    · intro x hx; exact Or.inl hx
+    · intro x hx
+      right
+      simp only [List.mem_map] at hx
+      obtain ⟨m0, hm0, rfl⟩ := hx
+      unfold loseOn
+      split
+      · exact (i.mOk m0 hm0).setSt _
+      · exact i.mOk m0 hm0
   · cases hs
 
 theorem release_inv {s s' : State} (i : Inv s) (ep conn id : Nat) (hs : release s ep conn id = some s') : Inv s' := by
